@@ -720,6 +720,11 @@ static void run_linker(StringArray *inputs, char *output) {
     strarray_push(&arr, format("%s/crtbegin.o", gcc_libpath));
   }
 
+  // Options given by the user, -L in particular, come first, so that
+  // the user's library directories are searched before the system's.
+  for (int i = 0; i < ld_extra_args.len; i++)
+    strarray_push(&arr, ld_extra_args.data[i]);
+
   strarray_push(&arr, format("-L%s", gcc_libpath));
   strarray_push(&arr, "-L/usr/lib/x86_64-linux-gnu");
   strarray_push(&arr, "-L/usr/lib64");
@@ -734,9 +739,6 @@ static void run_linker(StringArray *inputs, char *output) {
     strarray_push(&arr, "-dynamic-linker");
     strarray_push(&arr, "/lib64/ld-linux-x86-64.so.2");
   }
-
-  for (int i = 0; i < ld_extra_args.len; i++)
-    strarray_push(&arr, ld_extra_args.data[i]);
 
   for (int i = 0; i < inputs->len; i++)
     strarray_push(&arr, inputs->data[i]);
